@@ -1,6 +1,6 @@
 (* C10 - Clean (consolidate, save, prune) never changes what the repository reports. *)
 From BR Require Import Base.Prelude Base.Compact Headers.Tree Headers.TreeBasics Headers.TreeInv
-     Headers.TreeSteps Headers.TreeStream Headers.TreeProps Headers.TreeExample Headers.TreeHorizon Headers.TreeRestore.
+     Headers.TreeSteps Headers.TreeStream Headers.TreeProps Headers.TreeExample Headers.TreeHorizon Headers.TreeRestore Headers.TreeFinal.
 Open Scope N_scope.
 
 (* at any state, for any prune depth: tip, tip height and work, the chain at every height, the
@@ -43,6 +43,19 @@ Theorem C10_fork_points_stay : forall s d c q, Inv s -> In c (nodes s) -> n_mem 
   exists q', find (n_hash q) (nodes (fst (clean s d))) = Some q' /\ n_mem q' = true /\ core q' = core q.
 Proof. exact clean_keeps_fork_points. Qed.
 Print Assumptions C10_fork_points_stay.
+(* history dropped from memory is final: whatever is submitted, marked, un-marked, cleaned or saved
+   afterwards (any history without a Load), a header that has left memory stays in the repository,
+   stays out of memory and stays on the best chain - a reorganisation never reaches below the
+   memory window, so the header files that hold that history never have to be revised *)
+Theorem C10_pruned_history_final : forall cfg ops, cfg_ok cfg -> forall s, Inv s -> K (nodes s) ->
+  ops_ok cfg s ops -> all_not_load ops -> forall a, In a (nodes s) -> n_mem a = false ->
+  let s' := fst (run cfg s ops) in
+  exists a', In a' (nodes s') /\ core a' = core a /\ n_mem a' = false /\
+             is_anc (nodes s') (n_hash a) (tip s') = true.
+Proof. exact pruned_history_final. Qed.
+Print Assumptions C10_pruned_history_final.
+(* (Inv and K hold in every reachable state: TreeSteps.run_inv, TreeHorizon.run_K.) *)
+
 (* Not proved: that every later submission receives the very same verdict with and without the
    Clean (the fork-depth rule looks at branch-continuation flags which Clean rearranges); decided by
    the correspondence check with a clean-free control run. *)
